@@ -405,7 +405,7 @@ PROPS['C04'] = {
 }
 
 PROPS['C11'] = {
-    'modules': ['c11', 'c10', 'c03'],
+    'modules': ['c11', ('c10', ['R10.4']), ('c03', ['R3.8'])],
     'level': 'other',
     'quick_configs': ['default'],
     'thorough_configs': ALL,
